@@ -83,15 +83,29 @@ def build_corpus(run, rng, nmods, ntypes, nvals, tier, opts=("-fcompound-names",
                 seen.add(vs)
                 cases.append({"mod": m, "tn": tn, "ts": ts, "vs": vs})
     model = model_build()
+    # the C side receives every value as the model's DER (sorted SET OF ...), so the
+    # value the other encoders see is the one that DER denotes: decode it back first
+    lines = ["der %s %s" % (c["ts"], c["vs"]) for c in cases]
+    rcm, mo, me = run_lines(model, lines, timeout=1200)
+    if rcm != 0 or len(mo) != len(lines):
+        raise RuntimeError("model driver failed: %s %s" % (rcm, me))
+    for c, d in zip(cases, mo):
+        c["der"] = d
+    cases = [c for c in cases if c["der"] != "NONE"]
+    rcm, mo, me = run_lines(model, ["berdec %s %s" % (c["ts"], c["der"]) for c in cases], timeout=1200)
+    for c, d in zip(cases, mo):
+        f = d.split()
+        if f[0] != "OK" or int(f[1]) * 2 != len(c["der"]):
+            raise RuntimeError("model does not decode its own DER: %s %s -> %s" % (c["ts"], c["vs"], d))
+        c["vs0"], c["vs"] = c["vs"], f[2]
     lines = []
     for c in cases:
-        lines += ["der %s %s" % (c["ts"], c["vs"]), "uper 0 %s %s" % (c["ts"], c["vs"]),
-                  "uper 1 %s %s" % (c["ts"], c["vs"]), "oer %s %s" % (c["ts"], c["vs"])]
+        lines += ["uper 0 %s %s" % (c["ts"], c["vs"]), "uper 1 %s %s" % (c["ts"], c["vs"]), "oer %s %s" % (c["ts"], c["vs"])]
     rcm, mo, me = run_lines(model, lines, timeout=1200)
     if rcm != 0 or len(mo) != len(lines):
         raise RuntimeError("model driver failed: %s %s" % (rcm, me))
     for i, c in enumerate(cases):
-        c["der"], c["uper"], c["uperstd"], c["oer"] = mo[4 * i:4 * i + 4]
+        c["uper"], c["uperstd"], c["oer"] = mo[3 * i:3 * i + 3]
     return mods, cases
 
 
